@@ -78,6 +78,51 @@ func tinyPair(rng *rand.Rand) (old, new *tree, desc string) {
 	return old, new, "tiny-files"
 }
 
+// crossPair moves sections between files of different sizes (both patched, in both path orders): the optimizer
+// re-uses one bsdiff context for every file of a patch, so state left by a large file meets a smaller one.
+func crossPair(rng *rand.Rand) (old, new *tree, desc string) {
+	old, new = newTree(), newTree()
+	names := []string{"cross/a-first.bin", "cross/m-middle.bin", "cross/z-last.bin"}
+	rng.Shuffle(len(names), func(i, j int) { names[i], names[j] = names[j], names[i] })
+	sizes := []int{20000 + rng.Intn(60000), 600 + rng.Intn(3000), 3*BS + rng.Intn(BS)}
+	var olds [][]byte
+	for i, n := range names {
+		c := randBytes(rng, sizes[i])
+		old.Files[n] = c
+		olds = append(olds, c)
+	}
+	for i, n := range names {
+		e := append([]byte{}, olds[i]...)
+		if len(e) > 10 {
+			e[len(e)/3] ^= 0x21 // a one-byte edit so that the file is patched, not copied
+		}
+		// paste a section cut from the tail of another (usually larger) file
+		j := (i + 1 + rng.Intn(2)) % 3
+		src := olds[j]
+		ln := 300 + rng.Intn(900)
+		if ln > len(src) {
+			ln = len(src)
+		}
+		at := len(src) - ln - rng.Intn(1+len(src)/4)
+		if at < 0 {
+			at = 0
+		}
+		sec := append([]byte{}, src[at:at+ln]...)
+		sec[len(sec)/2] ^= 0x04
+		switch rng.Intn(3) {
+		case 0:
+			e = append(e, sec...)
+		case 1:
+			e = append(sec, e...)
+		default:
+			mid := len(e) / 2
+			e = append(append(append([]byte{}, e[:mid]...), sec...), e[mid:]...)
+		}
+		new.Files[n] = e
+	}
+	return old, new, "cross-file-sections"
+}
+
 func cmdC07(args []string) error {
 	fs := flag.NewFlagSet("c07", flag.ExitOnError)
 	n := fs.Int("n", 10, "cases")
@@ -96,6 +141,8 @@ func cmdC07(args []string) error {
 		var desc string
 		if k%3 == 1 {
 			old, new, desc = tinyPair(rng)
+		} else if k%3 == 2 {
+			old, new, desc = crossPair(rng)
 		} else {
 			old, new, desc = genPair(rng, k, false)
 		}
